@@ -107,6 +107,10 @@ func loopbackSessions(r *harness.EvRun) {
 		{"70001 bytes each way", false, []sess{{big, big[:50000]}}},
 		{"two sessions, the first ends inside a frame", false, []sess{{append(append([]byte{}, f...), htmlF[:5]...), []byte("A")}, {htmlF, []byte("B<")}}},
 	}
+	if r.NViolations() > 0 {
+		r.Extra["real_binary_pass"] = "skipped: a violation was already found by the exploration"
+		return
+	}
 	ran := 0
 	for _, c := range cases {
 		kind, detail := "", ""
